@@ -1,8 +1,9 @@
 #!/bin/sh
 # usage: run_o4.sh <bound> : bounded stand-in O4 against /repo's working tree (go test -overlay; nothing written into /repo)
-cd /repo/internal/parser || exit 2
+R=${VERIF_REPO:-/repo}
+cd $R/internal/parser || exit 2
 export GOFLAGS=-mod=mod GOPROXY=off GOSUMDB=off GOTOOLCHAIN=local
 ov=$(mktemp /tmp/verif-o4.XXXXXX.json)
-printf '{"Replace":{"/repo/internal/parser/zz_verif_o4_test.go":"/verif/bounded/o4_test.go"}}' > "$ov"
-O4_N=${1:-5} go test -overlay "$ov" -vet=off -count=1 -timeout 1500s -v -run '^TestO4GraphShape$' . 2>&1 | grep -E '^\{"' | tail -1
+printf '{"Replace":{"'"$R"'/internal/parser/zz_verif_o4_test.go":"/verif/bounded/o4_test.go"}}' > "$ov"
+O4_N=${1:-5} go test -overlay "$ov" -vet=off -count=1 -timeout ${O4_TIMEOUT:-1500}s -v -run '^TestO4GraphShape$' . 2>&1 | grep -E '^\{"' | tail -1
 rm -f "$ov"
